@@ -107,15 +107,20 @@ func dumpVal(sb *strings.Builder, v reflect.Value) {
 type tdKey struct {
 	path, name string
 	uuid       bool
+	konst      bool // met only as (part of) the type of a constant
 }
 
 func collectTDs(fd *tr.FileDescriptor, key string, into map[tdKey]*tr.TypeDescriptor, order *[]tdKey) {
+	konst := false
 	var walk func(t *tr.TypeDescriptor)
 	walk = func(t *tr.TypeDescriptor) {
 		if t == nil {
 			return
 		}
-		k := tdKey{t.Filepath, t.Name, t.Extra[key] != ""}
+		k := tdKey{t.Filepath, t.Name, t.Extra[key] != "", konst}
+		if _, ok := into[tdKey{k.path, k.name, k.uuid, false}]; ok {
+			return
+		}
 		if _, ok := into[k]; !ok {
 			into[k] = t
 			*order = append(*order, k)
@@ -144,6 +149,7 @@ func collectTDs(fd *tr.FileDescriptor, key string, into map[tdKey]*tr.TypeDescri
 	for _, t := range fd.Typedefs {
 		walk(t.Type)
 	}
+	konst = true
 	for _, c := range fd.Consts {
 		walk(c.Type)
 	}
@@ -334,7 +340,10 @@ func execOp(gd *tr.GlobalDescriptor, toks []string) (res string, ident string) {
 		if fd := gd.LookupFD(path); fd != nil {
 			collectTDs(fd, tr.GLOBAL_UUID_EXTRA_KEY, tds, &order)
 		}
-		td := tds[tdKey{path, name, uu}]
+		td := tds[tdKey{path, name, uu, false}]
+		if td == nil {
+			td = tds[tdKey{path, name, uu, true}]
+		}
 		if td == nil {
 			return "no-such-type-descriptor", ""
 		}
